@@ -3,6 +3,7 @@ import FhVerif.Model.ReqFraming
 import FhVerif.Model.ConnClose
 import FhVerif.Model.HeadEnd
 import FhVerif.Model.ConnStates
+import FhVerif.Model.TimeoutSem
 namespace Fh.Driver
 open Fh Fh.Spec.Rfc
 
@@ -52,6 +53,10 @@ def opsConn (op : String) (a : List Bytes) : Option String :=
     let obs := observed.filterMap fun c => match Char.ofNat c.toNat with
       | 'N' => some Fh.Model.CS.new | 'A' => some .active | 'I' => some .idle | 'C' => some .closed | 'H' => some .hijacked | _ => none
     some s!"{String.ofList ((Fh.Model.states it).map letter)} {Fh.Model.accepts obs}"
+  | "tosem", [cap, script] => do
+    -- TimeoutHandler concurrency bound: script letters s (handler outlives its timeout) / f (returns at once)
+    let n ← natOfDec? cap
+    some (" ".intercalate ((Fh.Model.TimeoutSem.serve (Fh.Model.TimeoutSem.init n) (script.map (· == 115))).map toString))
   | "headend", [buf] =>
     match Fh.Model.parseHead (fun l b => (l, b)) buf with
     | .needMore => some "needmore"
